@@ -34,6 +34,11 @@ fn spaces(tier: Tier) -> Vec<Space> {
     s.updates = vec![("p".into(), Some("a".into()), 1), ("p".into(), Some("b".into()), 2), ("p".into(), None, 2)];
     s.batches = true;
     v.push(Space { name: "R2-batches", sys: s, depth: if tier == Tier::Quick { 6 } else { 8 } });
+    // commits that contain invalid operations (redundant create, update of a missing task)
+    let mut s = SyncSys::new(2);
+    s.updates = vec![("p".into(), Some("a".into()), 1), ("q".into(), None, 4)];
+    s.messy = true;
+    v.push(Space { name: "R2-invalid-ops", sys: s, depth: if tier == Tier::Quick { 6 } else { 8 } });
     if tier == Tier::Thorough {
         let mut s = SyncSys::new(4);
         s.updates = vec![("p".into(), Some("a".into()), 1), ("p".into(), Some("b".into()), 2)];
@@ -98,6 +103,7 @@ pub fn run_spaces(prop: &str, spaces: Vec<Space>, opts: &Opts, rep: &Report) {
             deadline: Some(deadline),
             max_found: 6,
             first_depth: 1,
+            tolerate: vec![crate::props::syncworld::KNOWN_INVALID_REBASE.to_string()],
         };
         let (st, found, samples) = explore(&sp.sys, &cfg);
         rep.add("states", st.states);
